@@ -201,11 +201,14 @@ def record(lentil, tier, seed):
         blk = np.full((8, 12), 4096.0) + 4.0 * np.arange(96).reshape(8, 12)        # exactly representable in half precision
         r64 = lentil.rebin(blk, 4)
         for fdt in (np.float16, np.float32):
-            r_n = np.asarray(lentil.rebin(blk.astype(fdt), 4), dtype=float)
             if not np.array_equal(blk.astype(fdt).astype(float), blk):
                 continue
-            if not np.allclose(r_n, r64, rtol=1e-9, atol=0):
-                leaf.append(('rebin-depends-on-the-float-type-of-the-frame', {'dtype': np.dtype(fdt).name, 'float64': r64.tolist(), 'observed': r_n.tolist()}))
+            r_n = np.asarray(lentil.rebin(blk.astype(fdt), 4), dtype=float)
+            # ... and as slices of a cube
+            r_c = np.asarray(lentil.rebin(np.array([blk, 2 * blk, blk]).astype(fdt), 4), dtype=float)
+            if not (np.allclose(r_n, r64, rtol=1e-9, atol=0) and np.allclose(r_c, np.array([r64, 2 * r64, r64]), rtol=1e-9, atol=0)):
+                leaf.append(('rebin-depends-on-the-float-type-of-the-frame', {'dtype': np.dtype(fdt).name, 'float64': r64.tolist(), 'observed': r_n.tolist(),
+                                                                               'cube_ok': bool(np.allclose(r_c, np.array([r64, 2 * r64, r64]), rtol=1e-9, atol=0))}))
     # bounding slices of a mask given as nested lists (array_like, as for every other helper)
     lst = [[0, 0, 0, 0, 0], [0, 0, 1, 1, 0], [0, 0, 1, 1, 0], [0, 0, 0, 0, 0]]
     try:
